@@ -1376,6 +1376,7 @@ func (c *Conn) doRequest(d *connDeadline, write func(time.Time, int32) error) (i
 	id = c.correlationID
 	err = write(d.setConnWriteDeadline(c.conn), id)
 	d.unsetConnWriteDeadline()
+	verifPoint("conn.wrote")
 
 	if err != nil {
 		// When an error occurs there's no way to know if the connection is in a
@@ -1397,6 +1398,7 @@ func (c *Conn) waitResponse(d *connDeadline, id int32) (deadline time.Time, size
 		c.rlock.Lock()
 		deadline = d.setConnReadDeadline(c.conn)
 		rsz, rid, err = c.peekResponseSizeAndID()
+		verifPoint("conn.peeked")
 
 		if err != nil {
 			d.unsetConnReadDeadline()
